@@ -234,32 +234,42 @@ theorem assign_trigger_rel (m : State) (j : Mon) (x : Nat) (val : Int) (v0 : Var
     obtain ⟨_, hl⟩ := hcv s hs sm hsm
     rw [hl, hm2cur, ← hvars, List.getElem?_map, hv]; rfl
 
+theorem assign_none (m : State) (j : Mon) (x : Nat) (val : Int) (hcur : j.cur = m.vars.map (·.value))
+    (hx : m.vars[x]? = none) : j.assign x val = j := by
+  have hc : j.cur[x]? = none := by rw [hcur, List.getElem?_map, hx]; rfl
+  have hlen : ¬ x < j.cur.length := by
+    intro hl; rw [List.getElem?_eq_getElem hl] at hc; cases hc
+  unfold Mon.assign
+  rw [if_neg (by rw [hc]; exact fun e => by cases e), if_neg hlen]
+
+theorem assign_same (m : State) (j : Mon) (x : Nat) (val : Int) (v0 : Var) (hcur : j.cur = m.vars.map (·.value))
+    (hx : m.vars[x]? = some v0) (hval : v0.value = some val) : j.assign x val = j := by
+  have hc : j.cur[x]? = some v0.value := by rw [hcur, List.getElem?_map, hx]; rfl
+  unfold Mon.assign
+  rw [if_pos (by rw [hc, hval])]
+
+theorem assign_changed (m : State) (j : Mon) (x : Nat) (val : Int) (v0 : Var) (hcur : j.cur = m.vars.map (·.value))
+    (hx : m.vars[x]? = some v0) (hval : ¬ v0.value = some val) : j.assign x val = j.assigned x val := by
+  have hc : j.cur[x]? = some v0.value := by rw [hcur, List.getElem?_map, hx]; rfl
+  have hlen : x < j.cur.length := (List.getElem?_eq_some_iff.mp hc).1
+  have hne : ¬ (j.cur[x]? = some (some val)) := by
+    rw [hc]; intro e; exact hval (Option.some.inj e)
+  unfold Mon.assign
+  rw [if_neg hne, if_pos hlen]; rfl
+
 theorem setVar_ok (m : State) (j : Mon) (x : Nat) (val : Int) (h : Rel m j) (hn : j.now = m.now) :
     Rel (setVar m x val).1 ((j.beginOp (.set x val)).obsRun (setVar m x val).2) := by
+  show Rel (setVar m x val).1 ((j.assign x val).obsRun (setVar m x val).2)
   unfold setVar
   cases hx : m.vars[x]? with
   | none =>
-    have hc : j.cur[x]? = none := by rw [h.cur, List.getElem?_map, hx]; rfl
-    have hlen : ¬ x < j.cur.length := by
-      intro hl; rw [List.getElem?_eq_getElem hl] at hc; cases hc
-    have : j.beginOp (.set x val) = j := by simp [Mon.beginOp, hlen, hc]
-    rw [this]; exact h
+    rw [assign_none m j x val h.cur hx]; exact h
   | some v0 =>
-    have hc : j.cur[x]? = some v0.value := by rw [h.cur, List.getElem?_map, hx]; rfl
-    have hlen : x < j.cur.length := (List.getElem?_eq_some_iff.mp hc).1
     by_cases hval : v0.value = some val
-    · have : j.beginOp (.set x val) = j := by
-        show (if j.cur[x]? = some (some val) then j else _) = j
-        rw [if_pos (by rw [hc, hval])]
-      simp only [hval, if_true]
-      rw [this]; exact h
-    · have hb : j.beginOp (.set x val) = j.assigned x val := by
-        have hne : ¬ (j.cur[x]? = some (some val)) := by
-          rw [hc]; intro e; exact hval (Option.some.inj e)
-        show (if j.cur[x]? = some (some val) then j else if x < j.cur.length then _ else j) = _
-        rw [if_neg hne, if_pos hlen]; rfl
-      simp only [hval, if_false]
-      rw [hb]
+    · simp only [hval, if_true]
+      rw [assign_same m j x val v0 h.cur hx hval]; exact h
+    · simp only [hval, if_false]
+      rw [assign_changed m j x val v0 h.cur hx hval]
       cases hev : v0.evented with
       | false =>
         simp only [Bool.not_false, if_true]
